@@ -114,6 +114,9 @@ def run(ctx):
     table = {}
     # ---- the register-transfer model is the code's pipeline ---------------------------------
     pipeline.check(ctx)
+    # ... and the opcode whose routine runs is the byte that was fetched (also for STOP, resumed by the continue key)
+    from .. import fetchlatch
+    fetchlatch.obligations(ctx, prefix="fetch/")
     # ---- ... and the ALU functions have the documented shape (the rule of C08, shared) -------
     from . import C08
     chk.prefix = "alu/"
